@@ -27,6 +27,10 @@ GEN = [
 ]
 GEN.append("~V\nVERS. 2.0:\nWRAP. NO:\n~W\nSTRT.M 1:\nSTOP.M 2:\nSTEP.M 1:\nNULL. -999.25:\n~C\nDEPT.M:\nGR.:\n~P\nA.100   5 : numeric unit, widest item\n~A\n1 1\n2 2\n")
 GEN.append("~V\nVERS. 2.0:\nWRAP. NO:\n~W\nSTRT.M 1:\nSTOP.M 2:\nSTEP.M 1:\nNULL. -999.25:\nRIG.1000 lbf 25.5 : numeric unit with suffix\n~C\nDEPT.M:\nGR.2   07 : numeric unit in ~C\n~A\n1 1\n2 2\n")
+GEN.append("~V\nVERS. 2.0:\nWRAP. NO:\n~W\nSTRT.M 1:\nSTOP.M 120:\nSTEP.M 1:\nNULL. -999.25:\nLONG. " + "w" * 400 + " : " + "d" * 400 + "\n~C\nDEPT.M:\n"
+           + "".join("C%d.:\n" % j for j in range(1, 45)) + "~A\n" + "".join(" ".join(str(r + j * 0.5) for j in range(45)) + "\n" for r in range(1, 121)))
+GEN.append("~V\nVERS. 2.0:\nWRAP. NO:\n~W\nSTRT.M 1:\nSTOP.M 2:\nSTEP.M 1:\nNULL. -999.25:\n~C\nDEPT.M:\n" + "GR.:\n" * 12 + "~P\n" + "RUN. 1: r\n" * 11
+           + "~A\n1 " + " ".join(str(j) for j in range(12)) + "\n2 " + " ".join(str(j + 0.5) for j in range(12)) + "\n")
 OPTS = [{}, {"version": 1.2}, {"version": 2.0, "wrap": True}, {"fmt": "%.3f"}, {"fmt": "%.10g", "len_numeric_field": 25},
         {"version": 1.2, "wrap": True, "data_width": 40}, {"mnemonics_header": True}, {"wrap": False, "spacer": "\t"}]
 
